@@ -1153,6 +1153,13 @@ fn gen_c05(o: &mut Out, r: &mut Rng, d: &GDict, tier: &str) {
                 // through the stream codec: nothing of an unencodable message may reach the stream
                 o.line("senc -");
                 o.line("senc a1,p,a3");
+                // ... and a failed send must leave nothing behind: an ordinary message sent next arrives exactly
+                let g = message(r, d, 3, 2);
+                let mut ls = vec![];
+                g.ops(r, &mut ls);
+                o.lines(&ls);
+                o.line("senc -");
+                o.line("senc a5,p,a2,p");
             }
         }
     }
